@@ -11,6 +11,10 @@ m = {"version": 1, "setup_cmd": "cd /verif && ./setup.sh",
      "engines": [
         {"name": "pyvc", "path": "pyvc/", "serves_properties": sorted(claims['claimed'].keys()),
          "kind_free_text": "self-built deductive verifier for a Python subset: AST of /repo -> path-wise symbolic execution with loop invariants and modular callee contracts -> verification conditions discharged by z3 (cvc5 for unknowns)"},
+        {"name": "tnnorm", "path": "pyvc/tnnorm.py", "serves_properties": [p for p in ("C03", "C05", "C08", "C16") if p in claims['claimed']],
+         "kind_free_text": "second back end: decides equality of tensor-network (multilinear) expressions built by the real code against einsum specifications, for free tensor symbols of all sizes (normal form + matching)"},
+        {"name": "rg", "path": "pyvc/rg.py", "serves_properties": [p for p in ("C19",) if p in claims['claimed']],
+         "kind_free_text": "thread-modular (Owicki-Gries / monitor) obligations for util.ProgressBar at statement granularity, discharged by z3"},
         {"name": "replay", "path": "replay/", "serves_properties": sorted(claims['claimed'].keys()),
          "kind_free_text": "turns solver counter-models into concrete inputs and runs the real code under /venv/bin/python"}],
      "checks": [], "not_applicable": [], "notes": claims.get('notes', '')}
